@@ -734,6 +734,9 @@ class Interpreter(Interp):
             return v
         if isinstance(obj, (MapView, SetView, StructView)):
             m = _VIEW_METHODS.get((type(obj).__name__, attr))
+            if m is None and isinstance(obj, StructView) and attr in obj.typ.fields:
+                # a record object whose attributes are the struct's fields (always present)
+                return obj.getitem(attr)
             if m is None:
                 raise OutOfReach(f"{type(obj).__name__}.{attr}")
             return lambda interp, *a, **k: m(interp, obj, *a, **k)
@@ -836,6 +839,9 @@ class Interpreter(Interp):
                 assign_into(cur, cur.typ, "", [], value)
                 return
             obj.attrs[attr] = value
+            return
+        if isinstance(obj, StructView) and attr in obj.typ.fields:
+            obj.setitem(attr, value)
             return
         raise OutOfReach(f"setattr on {type(obj).__name__}")
 
